@@ -165,7 +165,7 @@ def locate (m, at, direction = None):
     return p.idx, sgn
 # end def locate
 
-def build_api (spec, early_loads = False, late_sources = False, plain_list = False, ints = False, tags = 'early'):
+def build_api (spec, early_loads = False, late_sources = False, plain_list = False, ints = False, tags = 'early', media_objs = None):
     """ The model of the spec built with the classes of the library instead
         of the command line, in the order the program uses - or, on
         request, in another order the API permits: distributed-load
@@ -239,7 +239,9 @@ def build_api (spec, early_loads = False, late_sources = False, plain_list = Fal
             w.taper_min = (t [1] or 0) if (t [1] is not None or t [2] is not None) else None
             w.taper_max = t [2]
     media = None
-    if spec.get ('media') is not None:
+    if media_objs is not None:
+        media = list (media_objs)       # Medium objects made by the caller (possibly used by another model before)
+    elif spec.get ('media') is not None:
         media = []
         for n, md in enumerate (spec ['media']):
             d = dict (boundary = spec.get ('boundary') or 'linear')
